@@ -12,6 +12,8 @@ Events == [op : {"tx"}, t : Txs, prov : {"ok", "fail"}, ok : BOOLEAN, ret : Txs]
    \cup   [op : {"raw"}, t : Txs, prov : {"ok", "fail"}, ok : BOOLEAN, ret : Txs]
    \cup   [op : {"block"}, page : Pages, limit : Limits, parse : BOOLEAN, prov : {"ok", "fail"}, ok : BOOLEAN,
            ret : {PageSeq(p, l) : p \in Pages, l \in Limits}]
+   \cup   [op : {"txs"}, a : {"a1"}, full : {<< <<"t", 1>>, <<"t", 2>> >>}, prov : {"ok", "fail"}, ok : BOOLEAN,
+           ret : {<< <<"t", 1>>, <<"t", 2>> >>, << <<"t", 1>> >>}]
    \cup   [op : {"fee"}, g : Groups, prov : {"ok", "fail"}, pval : FeeVals, ok : BOOLEAN, ret : FeeVals]
 
 Init == s = InitState /\ last = [op |-> "none", prov |-> "ok", ok |-> FALSE] /\ answered = {} /\ n = 0
@@ -21,6 +23,7 @@ Next == \E e \in Events : /\ Succ(s, e) # {}
                           /\ n' = n + 1
                           /\ answered' = IF e.prov = "ok" /\ e.ok
                                          THEN answered \cup (CASE e.op = "tx" -> {e.t}
+                                                               [] e.op = "txs" -> {e.full[i] : i \in 1..Len(e.full)}
                                                                [] e.op = "block" -> IF e.parse THEN {BlockTx(i) : i \in PageIdx(e.page, e.limit)} ELSE {}
                                                                [] OTHER -> {})
                                          ELSE answered
@@ -30,5 +33,7 @@ Bound == n <= 3
 CacheFaithful == s.known \subseteq answered
 NoStoreOnFailure == [][last'.prov = "fail" => s' = s]_vars
 NoFabrication == (last.op \in {"tx", "raw"} /\ last.ok /\ last.prov = "fail") => last.t \in answered
+\* a history served while the providers fail is one that was answered in full before
+HistoryNotFabricated == (last.op = "txs" /\ last.ok /\ last.prov = "fail") => (last.ret = last.full /\ last.a \in s.addrs)
 ValueIsRequested == (last.op \in {"tx", "raw"} /\ last.ok) => last.ret = last.t
 =============================================================================
